@@ -56,6 +56,10 @@ var c14Acts = []struct {
 	{"complete-then-error", []string{"F.I = F.I + 1", "Complete()", "F.Arr[7] = 1", "F.I2 = 3"}},
 	{"complete-then-probe", []string{"Complete()", "F.Act(%a)", "F.I2 = 2"}},
 	{"retract-then-error", []string{`Retract("r2")`, "F.I = F.I + 1", `F.I8 = "x"`}},
+	// a target that can be read but not written (a field of a struct held by value in a map), assigned the value it
+	// already holds / another value: the assignment fails either way
+	{"act-unwritable-target-same-value", []string{"F.I = F.I + 1", `F.MSV["a"].V = 10`, "F.I2 = 13"}},
+	{"act-unwritable-target-other-value", []string{"F.I = F.I + 1", `F.MSV["a"].V = 11`, "F.I2 = 14"}},
 	{"act-json-index-range-rhs", []string{"F.I = F.I + 1", "J.n = J.a[7]", "F.I2 = 11"}},
 	{"act-json-index-range-rhs-to-field", []string{"F.I = F.I + 1", "F.In = J.a[7]", "F.I2 = 12"}},
 }
@@ -80,6 +84,7 @@ func c14World(faultAt, kind int) func() *ref.World {
 		f := facts.New()
 		f.Arr = []int64{1}
 		f.M = map[string]int64{"a": 1}
+		f.MSV = map[string]facts.Sub{"a": {V: 10, S: "held by value"}}
 		f.H().FaultAt = faultAt
 		f.H().FaultKind = kind
 		w.Objs["F"] = f
